@@ -87,6 +87,14 @@ def event_job(job):
                            "lonS": bits(lon2[i]), "lat": bits(la[i]), "lon": bits(lo[i]),
                            "_m": dict(spec, s=120.0, beta_deg=float(np.degrees(beta2[i])), rethrown=True)})
         out = g(u.copy())
+        # and with every registered plot requested (non-interactive backend): what the caller receives must be the same selection
+        from nssverif import plots as _plots
+        try:
+            outp = _plots.call(g, u.copy(), plot=True)
+            same = len(outp) == len(out) and all(np.array_equal(np.asarray(a), np.asarray(b)) for a, b in zip(outp, out))
+        except Exception:
+            same = False
+        ev.append({"kind": "ret", "nkept": int(np.asarray(g.event_mask).sum()), "nret": int(len(outp[0])) if same else -1, "_m": dict(spec, plots_requested=True)})
         for x in out:
             ev.append({"kind": "ret", "nkept": int(np.asarray(g.event_mask).sum()), "nret": int(len(x)), "_m": dict(spec)})
     return ev
